@@ -16,7 +16,7 @@ from ..report import Report, key_of
 from ..terms import assume, dag_nodes, has_opaque, normalise, pretty
 from ..types import Ctx
 from .c02 import check_reprstr_levels
-from .common import TRUSTED_BASE, cfg_nodes_for, expanded_facts, inl, loop_runs_to_end, loop_unconditional, resolve_expr, subst_single_assign, where
+from .common import TRUSTED_BASE, bound_args, cfg_nodes_for, expanded_facts, inl, loop_runs_to_end, loop_unconditional, resolve_expr, subst_single_assign, where
 from .keyterm import branches, all_conj
 
 
@@ -318,30 +318,36 @@ def run(A, R: Report, thorough: bool):
     fpc = ctxc.methods.get('prepare_context')
     cfg = A.cfg(fpc)
     subs_nodes = [n.id for n in cfg.nodes.values() if n.kind == 'stmt' and n.ast is not None and any(isinstance(x, ast.Call) and src(x.func) == 'search_and_replace_placeholders' for x in ast.walk(n.ast))]
-    loads = [n for n in A.typer.own_nodes(fpc) if isinstance(n, ast.Call) and src(n.func) in ('Context.prepare_context', 'prepare_context') and any(isinstance(p, ast.For) and 'uses' in src(p.iter) for p in _parents(n))]
-    # the load of one `uses` item may sit in a private helper of Context: the call of that helper inside the loop is the load, and
-    # every recursive prepare_context call inside the helper must forward the variables
+    # loads of a `uses` item: recursive prepare_context calls that pass a namespace (the final call that merges the loaded contexts passes
+    # the list only) - written in prepare_context itself (loop or comprehension) or in a method of Context it calls
+    def _is_load(c_):
+        return isinstance(c_, ast.Call) and src(c_.func).split('.')[-1] == 'prepare_context' and (len(c_.args) >= 2 or any(kw.arg == 'namespace' for kw in c_.keywords))
+    loads = [n for n in A.typer.own_nodes(fpc) if _is_load(n)]
     helper_loads = []
-    if not loads:
-        for n_ in A.typer.own_nodes(fpc):
-            if isinstance(n_, ast.Call) and isinstance(n_.func, ast.Attribute) and n_.func.attr in ctxc.methods and n_.func.attr != 'prepare_context' and src(n_.func.value) in ('Context', 'cls', 'self') \
-                    and any(isinstance(p_, ast.For) and 'uses' in src(p_.iter) for p_ in _parents(n_)):
-                h_ = ctxc.methods[n_.func.attr]
-                inner = [c_ for c_ in A.typer.own_nodes(h_) if isinstance(c_, ast.Call) and src(c_.func) in ('Context.prepare_context', 'prepare_context', 'cls.prepare_context')]
-                if inner:
-                    loads.append(n_)
-                    helper_loads += [(h_, c_) for c_ in inner]
+    for n_ in A.typer.own_nodes(fpc):
+        if isinstance(n_, ast.Call) and isinstance(n_.func, ast.Attribute) and n_.func.attr in ctxc.methods and n_.func.attr != 'prepare_context':
+            tgs = [t_ for t_ in A.typer.call_targets(n_, Ctx(fpc, None)) if t_.kind == 'func']
+            h_ = tgs[0].func if len(tgs) == 1 else (ctxc.methods[n_.func.attr] if src(n_.func.value) in ('Context', 'cls', 'self') else None)
+            if h_ is None or h_.cls is not ctxc:
+                continue
+            inner = [c_ for c_ in A.typer.own_nodes(h_) if _is_load(c_)]
+            if inner:
+                loads.append(n_)
+                # the helper forwards the variables only if it is given them: parameter bound at the call site to prepare_context's own
+                ba_ = bound_args(n_, h_) or {}
+                given = {p_ for p_, a_ in ba_.items() if src(a_) == 'global_vars'}
+                helper_loads += [(h_, c_, given) for c_ in inner]
     R.require(subs_nodes and loads, 'anchor: placeholder substitution / nested context loading not found in Context.prepare_context')
     load_nodes = [cn.id for c in loads for cn in cfg_nodes_for(cfg, c)]
     gv_edges = [n.id for n in cfg.nodes.values() if n.kind == 'edge' and src(n.ast) in ('global_vars is not None',) and n.label == 'F'] + \
                [n.id for n in cfg.nodes.values() if n.kind == 'edge' and src(n.ast) in ('global_vars is None', 'not global_vars') and n.label == 'T']
     p = cfg.find_path([cfg.entry.id], load_nodes, avoid=subs_nodes + gv_edges)
     R.check(p is None, 'R11.5', 'Context.prepare_context: uses', key_of('uses-order'), 'uses substituted before being loaded', 'context `uses` paths are loaded before placeholders in them are substituted', witness=cfg.describe_path(p) if p else None, where=where(fpc))
-    for h_, c in helper_loads:
-        fwd = any(kw.arg == 'global_vars' and src(kw.value) == 'global_vars' for kw in c.keywords) or (len(c.args) >= 3 and src(c.args[2]) == 'global_vars')
+    for h_, c, given in helper_loads:
+        fwd = any(kw.arg == 'global_vars' and src(kw.value) in given for kw in c.keywords) or (len(c.args) >= 3 and src(c.args[2]) in given)
         R.check(fwd, 'R11.5', f'{h_.short}: `{src(c)[:50]}`', key_of('forward-global-vars', src(c)), 'variables forwarded to nested contexts',
                 'a context loaded through `uses` does not receive global_vars: placeholders in its own `uses` are never substituted', where=where(h_, c))
-    for c in loads:
+    for c in [c_ for c_ in loads if _is_load(c_)]:
         fwd = any(kw.arg == 'global_vars' and src(kw.value) == 'global_vars' for kw in c.keywords) or (len(c.args) >= 3 and src(c.args[2]) == 'global_vars')
         R.check(fwd, 'R11.5', f'Context.prepare_context: `{src(c)[:50]}`', key_of('forward-global-vars', src(c)), 'variables forwarded to nested contexts',
                 'a context loaded through `uses` does not receive global_vars: placeholders in its own `uses` are never substituted', where=where(fpc, c))
